@@ -824,6 +824,8 @@ def check_updates_reach_every_holder(ctx, rep):
         n += 1
     # an in-place write into the tensor of the *underlying* parameter is followed by that parameter's own notification (its holders listen to it, not to the view)
     c11.check_inplace(ctx, RuleProxy(rep, 'C13.U', 'in-place::'), rule='C11.W', only=lambda m, fn: m.name == 'torchtree.core.parameter')
+    # the MCMC operators are holders too: a value they restore or propose is written through the notifying setter (or followed by the notification)
+    c11.check_inplace(ctx, RuleProxy(rep, 'C13.U', 'operators::'), rule='C11.W', only=lambda m, fn: m.name.startswith('torchtree.inference.mcmc'))
     tree_base = ctx.classes.get('torchtree.evolution.tree_model.TimeTreeModel')
     c11.check_shared_flags(ctx, RuleProxy(rep, 'C13.U', 'flags::'), only=lambda c: c is tree_base or c.has_base(tree_base.qualname))
     # the base classes every holder inherits its forwarding from (CallableModel, the parameter kinds of core/parameter.py): an event that is swallowed there never reaches the
